@@ -678,6 +678,27 @@ func (env *Env) call(x *ast.CallExpr) TV {
 		case "allocated":
 			v := env.expr(x.Args[0])
 			return TV{and("(< 0 "+v.T+")", "(< "+v.T+" "+vc.get(env.heap, compTop)+")"), tBool}
+		case "evcount":
+			id, ok := x.Args[0].(*ast.Ident)
+			if !ok {
+				sfail("evcount(event)")
+			}
+			if vc.P.cs.Events[id.Name] == nil {
+				sfail("undeclared event %s", id.Name)
+			}
+			return TV{vc.get(env.heap, vc.evCounter(id.Name)), tInt}
+		case "evlast":
+			id, ok := x.Args[0].(*ast.Ident)
+			if !ok || len(x.Args) != 2 {
+				sfail("evlast(event, i)")
+			}
+			lit, ok := x.Args[1].(*ast.BasicLit)
+			if !ok {
+				sfail("evlast(event, i): i must be a literal")
+			}
+			k, _ := strconv.Atoi(lit.Value)
+			c, ty := vc.evArg(id.Name, k)
+			return TV{vc.get(env.heap, c), ty}
 		case "seen":
 			// seen(k): key k has already been visited by the enclosing range-over-map loop
 			if env.seenOf == nil {
